@@ -123,3 +123,34 @@ func VerifC05RaceBadger() {
 	}
 	verifapi.Assert(oks <= 1, "c05.race-at-most-one-acceptance")
 }
+
+// VerifC05RaceDistinctBadger: two requests of one identity with DIFFERENT
+// nonces are submitted at the same time. Whatever the interleaving (conflicts
+// of the nonce transaction included), the higher of the accepted nonces is
+// what the driver remembers: it cannot be submitted again - also not to a new
+// driver instance over the same database (C13: an acknowledged nonce is read
+// back after a restart) - and a lower one is refused as well.
+func VerifC05RaceDistinctBadger() {
+	s := verifOpen()
+	now := verifapi.Time("now")
+	verifapi.SetNow(now)
+	id := verifapi.NodeID(0)
+	n1, n2 := verifapi.Int64("n1"), verifapi.Int64("n2")
+	verifapi.Assume(n1 < n2)
+	fresh := now.UnixNano() - int64(store.ExpireNonce)
+	verifapi.Assume(n1 > fresh && n2 <= now.UnixNano())
+	var e1, e2 error
+	done := make(chan int, 2)
+	go func() { e1 = s.CheckAndSaveNonce(id, n1); done <- 1 }()
+	go func() { e2 = s.CheckAndSaveNonce(id, n2); done <- 2 }()
+	<-done
+	<-done
+	verifapi.Reach("c05.race.distinct")
+	re := &badgerStore{db: s.db, nonceExpire: s.nonceExpire}
+	if e2 == nil {
+		verifapi.Assert(re.CheckAndSaveNonce(id, n2) != nil, "c05.race.accepted-nonce-cannot-be-submitted-again")
+		verifapi.Assert(re.CheckAndSaveNonce(id, n1) != nil, "c05.race.lower-nonce-refused-after-higher-accepted")
+	} else if e1 == nil {
+		verifapi.Assert(re.CheckAndSaveNonce(id, n1) != nil, "c05.race.accepted-nonce-cannot-be-submitted-again")
+	}
+}
